@@ -1,5 +1,7 @@
 /* C13 / HTTP: in-place editors that move bytes with memmove -- wsp2sp, http_hdr_val_remove,
- * http_hdr_vals_remove, http_query_val_del, http_data_decode_chunked.
+ * http_hdr_vals_remove, http_query_val_del, http_data_decode_chunked -- and bounded quick-tier
+ * variants of the two heaviest scanners (http_hdr_val_get_ex, http_query_val_get_ex), whose
+ * unbounded loop-contract proofs live in the thorough tier.
  *
  * Route "bounded" (plain harness, no --dfcc): symbolic-length memmove on symbolic-size
  * objects exhausts the solver's memory, so the span is a window of a fixed array of N bytes:
@@ -115,6 +117,32 @@ void harness(void) {
 	VF_ASSERT(cnt <= size, "query_val_del: count bounded by query size");
 #ifndef VF_REPLAY
 	VF_ASSERT((k >= off && k < off + size) || in.b[k] == in_k, "query_val_del frame: only the query written");
+#endif
+
+#elif defined(VF_FN_http_hdr_val_get_ex) || defined(VF_FN_http_query_val_get_ex)
+	VF_NONDET_BYTES(nm, 4);
+	VF_NONDET(size_t, name_size);
+	VF_ASSUME(name_size <= 4);
+	VF_NONDET(uint8_t, name_at_end);
+	uint8_t *name = WINDOW(nm, (name_at_end & 1) ? 4 - name_size : 0, name_size);
+	const uint8_t *val = NULL, *name_pos = NULL;
+	size_t val_size = 0, next = 0;
+#ifndef VF_REPLAY
+	uint8_t in_k = in.b[k];
+#endif
+#if defined(VF_FN_http_hdr_val_get_ex)
+	VF_NONDET(size_t, offset);
+	int r = http_hdr_val_get_ex(buf, size, name, name_size, offset, &val, &val_size, &next);
+	VF_ASSERT(r != 0 || (next > offset && next <= size), "hdr_val_get_ex: continuation offset makes progress");
+#else
+	int r = http_query_val_get_ex(buf, size, name, name_size, &name_pos, &val, &val_size);
+	VF_ASSERT(r != 0 || (name_pos >= buf && name_pos < val), "query_val_get_ex: name before value");
+#endif
+	VF_ASSERT(r == 0 || r == ESPIPE, "get_ex: return code");
+	VF_ASSERT(r != 0 || (val >= buf && val <= buf + size && val_size <= (size_t)((buf + size) - val)),
+	    "get_ex: value inside the received bytes");
+#ifndef VF_REPLAY
+	VF_ASSERT(in.b[k] == in_k, "get_ex frame: nothing written");
 #endif
 
 #elif defined(VF_FN_http_data_decode_chunked)
